@@ -9,7 +9,7 @@ VERIF = Path(__file__).resolve().parent.parent
 COMMON_NOTE = (
     "Trusted: Lean 4.33 kernel (axioms audited per theorem on every run: ⊆ propext, Classical.choice, "
     "Quot.sound; no sorry/native_decide/own axioms), the Lean compiler for the model driver, "
-    "harness/translate.py (tables regenerated from /repo each run), harness/pytranslate.py (three functions "
+    "harness/translate.py (tables regenerated from /repo each run), harness/pytranslate.py (the functions of its TARGETS table, "
     "translated from their Python source each run) and the correspondence harness. "
 )
 
